@@ -82,8 +82,8 @@ PROPS = {
              "fen_roundtrip_valid (every valid position is read back, and Board::from_fen of its text returns the same board); "
              "fen_parse_format_parse (parse–format–parse is stable for ANY accepted text); cells_roundtrip (run-length encoding, no "
              "hypothesis), counter_roundtrip, splitSpaces_six / fmtFen_split (canonical six fields on single spaces), fmtFen_ascii, "
-             "fmtFen_injective",
-             ["that an INDEPENDENT reader interprets the text as the same position is checked differentially (Spec.Fen.read in the driver), not proved"],
+             "fmtFen_injective; fen_independent_reader(_valid) (Props/C08_reader: the independent grammar-style reader Spec.Fen.read interprets the text as exactly the same position), fen_readers_agree",
+             [],
              "Lean 4 theorems over all raw boards and all byte strings; differential on generated positions and strings ties the model to the code",
              "§6 C08"),
     "C09": P("proof", "OUTPUT: san_output_standard (for every valid position and legal move the text produced is exactly Spec.San.write — "
